@@ -370,6 +370,9 @@ def main(modname):
         for e in load_known(check.id):
             if e.get("replay") is None:
                 continue
+            owner = e.get("replay_property") or e.get("property") or (e.get("properties") or [None])[0]
+            if owner != check.id:
+                continue  # the stored reproducer is a case spec of another check
             res = check.run_case(e["replay"])
             hit = [d for d in res.disagreements]
             if e.get("status") == "open":
